@@ -779,6 +779,10 @@ QuiescentCommitted ==
          /\ Cardinality({f \in Nodes \ {l} : CaughtUp(l, f)}) >= Quorum(lead[l].rf))
         => lead[l].commit = lead[l].head /\ lead[l].head = Len(wal[l])
 
+\* C03/C09: a node's log has no gap (an empty WAL accepts any first offset, see DeliverAppend: a follower that lost
+\* an entry it had acknowledged ends up with a hole - only beyond the dupAck finding)
+LogContiguous == \A n \in Nodes : \A i \in 1..Len(wal[n]) : wal[n][i] # Hole
+
 TypeOK ==
     /\ \A n \in Nodes : synced[n] <= Len(wal[n]) /\ Len(applied[n]) <= Len(wal[n]) + MaxWrites
     /\ \A n \in Nodes : (lead[n] # NULL) => ctrl[n] = "leader"
